@@ -22,7 +22,8 @@ Wraps2 == IF Q THEN {"id", "neg", "sumby", "topkby", "mul2", "gt3", "scalar", "c
 Wraps1 == IF Q THEN {"id", "abs", "neg", "sumby", "topk", "topkby", "maxwo", "gtb3", "cmin", "ts", "q50", "scalar", "bk2"} ELSE Wraps
 Leafs2 == IF Q THEN {"none", "m", "sp"} ELSE {"none", "m", "n", "num", "sp", "rate", "mpin", "time"}
 BOps   == IF Q THEN {"+", ">", "gl"} ELSE {"+", ">", "gl", "*on", "==b", "-"}
-NStepsSet == IF Q THEN {1, 12} ELSE {1, 4, 12, 23}
+\* 1 = instant query; 0 = a range query of a single step (start = end)
+NStepsSet == IF Q THEN {0, 1, 12} ELSE {0, 1, 4, 12, 23}
 Starts == {2}
 
 VARIABLE g
@@ -104,7 +105,7 @@ PlanOf(x) ==
             IF c = <<>> THEN <<>> ELSE Combine(x.bop, b, c)
 
 Valid(x) == PlanOf(x) # <<>> /\ (x.l2 = "none" => (x.w3 = "id" /\ x.bop = "+"))
-ScnOf(x) == Scn("cmp", "C01", TickMs, Data, PlanOf(x), 2, IF x.n = 1 THEN 2 ELSE 2 + (x.n - 1), IF x.n = 1 THEN 0 ELSE 1, 2, 0)
+ScnOf(x) == Scn("cmp", "C01", TickMs, Data, PlanOf(x), 2, IF x.n <= 1 THEN 2 ELSE 2 + (x.n - 1), IF x.n = 1 THEN 0 ELSE 1, 2, 0)
 
 \* model-level law on every well-typed plan: a step without error has pairwise distinct label sets,
 \* and a scalar-typed plan denotes exactly one value per step
